@@ -309,6 +309,21 @@ def _fast_scan(chk, repo, folder, sc):
     succ = [r for r in rets if src(r.value) == "(True, lss_id)"]
     fail = [r for r in rets if src(r.value) == "(False, None)"]
     chk.check(len(succ) == 1 and len(fail) >= 1 and len(succ) + len(fail) == len(rets), "R6", f"{L}:LssMaster.fast_scan | results", f.loc(), f"{[src(r) for r in rets]}")
+    for r in fail:
+        if outer and any(r is x for x in ast.walk(outer[0])):
+            ig = None
+            for n in ast.walk(outer[0]):
+                if isinstance(n, ast.If) and any(s_ is r for s_ in n.body):
+                    ig = n.test
+            ok = ig is not None and isinstance(ig, ast.UnaryOp) and isinstance(ig.operand, ast.Call) and src(ig.operand.func) == "self.__send_fast_scan_message" \
+                and [src(a) for a in ig.operand.args] == ["lss_id[lss_sub]", "lss_bit_check", "lss_sub", "lss_next"]
+            if ok:
+                # it is the confirm probe: issued after LSSNext was advanced
+                nx = [n for n in ast.walk(outer[0]) if isinstance(n, ast.Assign) and src(n.targets[0]) == "lss_next"]
+                ok = bool(nx) and nx[0].lineno < r.lineno
+            chk.check(ok, "R6", f"{L}:LssMaster.fast_scan | gives up only when the confirm probe is unanswered", f.loc(r),
+                      f"`return (False, None)` under `{src(ig) if ig is not None else '?'}`: silence on the 32 bit probes is the legal answer of a slave whose identity part is "
+                      f"all ones; only the confirm probe (bit check 0, after LSSNext advanced) decides")
     for r in succ:
         if outer:
             lp = [n for n in ff.cfg.nodes if n.kind == "test" and n.ast is outer[0].test]
